@@ -1,6 +1,9 @@
-(* C05 runner.  input = L [A kind; cfg; L ops; impl; A endpoint]   (impl selects the real serializer; endpoint:
+(* C05 runner.  input = L [A kind; cfg; L ops; impl; A endpoint; bufopt]   (impl selects the real serializer; endpoint:
    0 DatagramEndpoint/socket pair, 1 AsyncDatagramEndpoint/in-memory, 2 UDPNetworkClient, 3 AsyncUDPNetworkClient;
-   for 3 the transport ignores empty payloads on send iff Gen.ParamsC05.async_transport_drops_empty, recorded on every run)
+   4 UDPNetworkClient over AF_INET6; for 3 the transport ignores empty payloads on send iff
+   Gen.ParamsC05.async_transport_drops_empty, recorded on every run.  bufopt = L [] | L [A n]: the size given to recv(2) is
+   n (SocketDatagramTransport(max_datagram_size=n)), else Gen.ParamsC05.max_datagram_bufsize (regenerated from
+   lowlevel/constants.py) for the blocking transports 0/2/4, 256 KiB (asyncio) for 3, unbounded for the in-memory 1)
      kind 0  any one-shot serializer (+converter) as a black box: the codec is the table carried by the ops
              cfg = L []
              op  = L [A 0; B dgram; res]     the peer sends dgram; res = what a FRESH protocol object makes of dgram alone:
@@ -10,14 +13,19 @@
                  | L [A 5; B pkt; B dgram]   send_packet(obj) where obj is ONE mutable object of the case, updated in place to pkt
                  | L [A 6]                   recv_packet() in a task that is cancelled one loop iteration later (async endpoints)
                  | L [A 7]                   an asynchronous socket error is reported to the asyncio protocol (error_received)
+                 | L [A 8; A n; B token; rw; rt]  the peer sends a LARGE datagram of n bytes (content not shipped to the model,
+                                              named by token); rw / rt = fresh-protocol result for the whole datagram / for its
+                                              first max_datagram_bufsize bytes: the model picks rw iff n <= the recv size
+                 | L [A 9; B pkt]            send_packet(pkt) where serializing pkt raises: RuntimeError, no datagram
      kind 1  one-shot interface derived from read_until:  cfg = L [B sep; A limit; A keep_end; A decmode; A conv]
      kind 2  one-shot interface derived from read_exactly: cfg = L [A size; A decmode; A conv]
+     kind 3  StringLineSerializer one-shot codec (Frame/LineOneShot.v): cfg = L [B sep; A keep_end; A ascii]
              op  = L [A 0; B dgram] | L [A 1; B payload] | L [A 3]
              decmode 0 identity | 1 ascii (DeserializeError on a byte >= 128); conv 1: converter rejecting "!..." packets
    output = L [per op: L []  (arrive) | L [L [A 4; B dgram]] (send: what the peer receives)
                      | L [L [A 0; B pkt]] | L [L [A 1; A errcode]] | L [L [A 2]] | L [L [A 3]] (recv; 3 = nothing queued)
                      | L [L [A 5]] (cancelled, nothing consumed) | L [L [A 6; A 0]] (the socket error, at its position)] *)
-From EN Require Import Lib.Bytes Lib.Sx Frame.Framer Frame.ReadUntil Frame.OneShot IO.DgramEndpoint Gen.ParamsC05.
+From EN Require Import Lib.Bytes Lib.Sx Frame.Framer Frame.ReadUntil Frame.OneShot Frame.LineOneShot IO.DgramEndpoint Gen.ParamsC05.
 
 Definition err_code (e : err) : Z :=
   match e with ELimit => 0 | EDecode => 1 | EConvert => 2 | EMissing => 3 | EExtra => 4 end%Z.
@@ -33,16 +41,26 @@ Definition rres_sx (r : rres bytes) : sx :=
   | RNoData => L [A 3]
   | RCancelled => L [A 5]
   | RSockError => L [A 6; A 0]
+  | RSendFailed => L [A 7]
   end%Z.
 
 (* kind 0: table built from the arrive ops; an untabulated datagram crashes (always a disagreement) *)
-Fixpoint table_of (ops : list sx) : list (bytes * ores bytes) :=
+Definition res_of (r : sx) : ores bytes :=
+  match r with
+  | L [A 0%Z; B p] => OOk p
+  | L [A 1%Z; A c] => OErr (code_err c)
+  | _ => OCrash
+  end.
+
+Fixpoint table_of (bufsize : N) (ops : list sx) : list (bytes * ores bytes) :=
   match ops with
   | [] => []
-  | L [A 0%Z; B d; L [A 0%Z; B p]] :: r => (d, OOk p) :: table_of r
-  | L [A 0%Z; B d; L [A 1%Z; A c]] :: r => (d, OErr (code_err c)) :: table_of r
-  | L [A 0%Z; B d; L [A 2%Z]] :: r => (d, OCrash) :: table_of r
-  | _ :: r => table_of r
+  | L [A 8%Z; A n; B tok; rw; rt] :: r =>
+      (tok, res_of (if (Z.to_N n <=? bufsize)%N then rw else rt)) :: table_of bufsize r
+  | L [A 0%Z; B d; L [A 0%Z; B p]] :: r => (d, OOk p) :: table_of bufsize r
+  | L [A 0%Z; B d; L [A 1%Z; A c]] :: r => (d, OErr (code_err c)) :: table_of bufsize r
+  | L [A 0%Z; B d; L [A 2%Z]] :: r => (d, OCrash) :: table_of bufsize r
+  | _ :: r => table_of bufsize r
   end.
 
 Fixpoint lookup (t : list (bytes * ores bytes)) (d : bytes) : ores bytes :=
@@ -73,6 +91,8 @@ Definition dec_op (x : sx) : option (op (Q := bytes)) :=
   | L [A 3%Z] => Some OpRecv
   | L [A 6%Z] => Some OpRecvCancel
   | L [A 7%Z] => Some OpSockError
+  | L (A 8%Z :: A _ :: B tok :: _) => Some (OpArrive tok)
+  | L (A 9%Z :: _) => Some OpSendFail
   | _ => None
   end.
 
@@ -92,13 +112,14 @@ Section Go.
   Variable serialize : bytes -> bytes.
   Variable deserialize : bytes -> ores bytes.
   Variable from_dto : bytes -> option bytes.
+  Variable bufsize : N.
   Variable drop_empty : bool.
 
   Fixpoint go (t : transport) (ops : list (op (Q := bytes))) : list sx :=
     match ops with
     | [] => []
     | o :: r =>
-        let '(t', rs) := do_op serialize deserialize (fun q => q) from_dto drop_empty t o in
+        let '(t', rs) := do_op serialize deserialize (fun q => q) from_dto bufsize drop_empty t o in
         let out :=
           match o with
           | OpSend _ => map (fun d => L [A 4; B d]) (skipn (length (outq t)) (outq t'))
@@ -112,20 +133,31 @@ Definition t0 : transport := {| inq := []; outq := [] |}.
 
 Definition run (i : sx) : sx :=
   match i with
-  | L (A kind :: cfg :: L rawops :: _ :: A ep :: _) =>
+  | L (A kind :: cfg :: L rawops :: _ :: A ep :: bo :: _) =>
       do ops <- map_opt dec_op rawops;
+      do bopt <- as_opt as_Z bo;
       let de := Z.eqb ep 3 && async_transport_drops_empty in
+      let bs := match bopt with
+                | Some n => Z.to_N n
+                | None => match ep with
+                          | 1%Z => 1099511627776%N
+                          | 3%Z => 262144%N
+                          | _ => max_datagram_bufsize
+                          end
+                end in
       match kind, cfg with
       | 0%Z, _ =>
-          let tb := table_of rawops in
+          let tb := table_of bs rawops in
           let et := enc_table_of rawops in
-          L (go (enc_lookup et) (lookup tb) (fun p => Some p) de t0 ops)
+          L (go (enc_lookup et) (lookup tb) (fun p => Some p) bs de t0 ops)
       | 1%Z, L [B sep; A limit; A ke; A dm; A cv] =>
           let F := ru_framer sep (Z.to_nat limit) (Z.eqb ke 1) (mk_dec dm) in
-          L (go (fun p => oneshot_serialize (until_parts sep p)) (oneshot_deserialize F) (mk_conv cv) de t0 ops)
+          L (go (fun p => oneshot_serialize (until_parts sep p)) (oneshot_deserialize F) (mk_conv cv) bs de t0 ops)
       | 2%Z, L [A size; A dm; A cv] =>
           let F := rx_framer (Z.to_nat size) (mk_dec dm) in
-          L (go (fun p => oneshot_serialize (exact_parts p)) (oneshot_deserialize F) (mk_conv cv) de t0 ops)
+          L (go (fun p => oneshot_serialize (exact_parts p)) (oneshot_deserialize F) (mk_conv cv) bs de t0 ops)
+      | 3%Z, L [B sep; A ke; A asc] =>
+          L (go line_serialize (line_deserialize sep (Z.eqb ke 1) (Z.eqb asc 1)) (fun p => Some p) bs de t0 ops)
       | _, _ => bad_input
       end
   | _ => bad_input
